@@ -16,7 +16,9 @@ The chain is explicit:
     ⇒ gap ≤ ε in the property's units                (`paveba_ellipsoid_final_accurate`,
                                                        `paveba_rect_final_accurate` with its side condition).
 
-* `region_domination_strict_order` — the acyclicity hypothesis holds for non-empty, non-degenerate regions.
+* `region_domination_strict_order`, `box_regions_nondegenerate` — the acyclicity hypothesis holds for
+  non-empty, non-degenerate regions; boxes of positive size are non-degenerate.
+* `inBox_spec`, `inEll_spec`, `auer_premise_uniform_is_box` — what the per-round premise checks mean.
 * `rect_slack_is_threshold_Ws` — what the rectangular variants' slack means (suspected defect D6).
 * `accB_of_accT` — thresholds `≤ ε·α` turn the code-units conclusion into `m(i,j) ≤ ε`.
 * `gapLe_is_min_gap`, `accA_spec`, `accB_spec` — what the executable checks mean.
@@ -96,6 +98,16 @@ theorem region_domination_strict_order (W : Mat) (m : Nat) (R1 R2 R3 : Region)
     ((∃ z, R1 z ∧ ∃ z', R1 z' ∧ ∃ w ∈ W, dot w z ≠ dot w z') → ¬ SemDominated W R1 R1) :=
   ⟨fun hne h12 h23 => semDominated_trans W m R1 R2 R3 h1 h2 h3 hne h12 h23,
    fun hnd => semDominated_irrefl W m R1 h1 hnd⟩
+
+/-- **Boxes of positive size are non-degenerate.**  A displayed rectangle `[l, u]` (`l ≤ u`) that has
+positive width in some coordinate on which some facet of the cone has a non-zero entry contains two
+points separated by that facet functional — the `hnondeg` hypothesis of
+`paveba_oracles_sound_of_valid_regions` for `R := fun z => inBox l u z = true`. -/
+theorem box_regions_nondegenerate (W : Mat) (l u : Vec) (hlen : l.length = u.length) (hle : vle l u = true)
+    (w : Vec) (hwW : w ∈ W) (d : Nat) (hd : d < l.length) (hwd : d < w.length)
+    (hw : w[d] ≠ 0) (hlt : l[d] < u[d]'(by omega)) :
+    ∃ z, inBox l u z = true ∧ ∃ z', inBox l u z' = true ∧ ∃ w ∈ W, dot w z ≠ dot w z' :=
+  box_nondegenerate W l u hlen hle w hwW d hd hwd hw hlt
 
 /-- **Valid regions give sound oracles.**  `R r i` is the region of design `i` as the decision
 phases of round `r` see it.  If the two oracles decide the semantic predicates (`is_dominated` ⇔
